@@ -18,6 +18,15 @@ pub enum InitialWb {
     Layout(u8),
 }
 
+/// what the bare `Model` of the world (C29/C30) starts from
+#[derive(Serialize, Deserialize, Clone, Debug, PartialEq)]
+pub enum BareInit {
+    Empty,
+    Layout(u8),
+    /// imported from a fixture of xlsx/tests: the style pools real files bring
+    Fixture(String),
+}
+
 #[derive(Serialize, Deserialize, Clone, Debug)]
 pub struct Init {
     pub lang: String,
@@ -29,6 +38,8 @@ pub struct Init {
     /// key of the entropy seam for this run's thread
     pub hash_key: u64,
     pub start_ms: u64,
+    #[serde(default, skip_serializing_if = "Option::is_none")]
+    pub bare: Option<BareInit>,
 }
 
 pub struct Follower {
@@ -78,6 +89,12 @@ pub struct World {
     /// (maintained from hook H1, used by generator guards only)
     pub undo_kinds: Vec<&'static str>,
     pub redo_kinds: Vec<&'static str>,
+    /// a `Model` driven through its own setters (C29/C30)
+    pub bare: Option<Model<'static>>,
+    /// bytes of the bare model as it started (the reference models read untouched lines from it)
+    pub bare_initial: Vec<u8>,
+    /// bytes of the primary as it started
+    pub primary_initial: Vec<u8>,
 }
 
 pub enum Aux {
@@ -185,6 +202,23 @@ impl World {
             primary.paused = true;
         }
         let bytes = primary.um.to_bytes();
+        let bare = match &init.bare {
+            None => None,
+            Some(BareInit::Empty) => Some(Model::new_empty("model", locale, tz, lang)?),
+            Some(BareInit::Layout(k)) => {
+                let mut m = Model::new_empty("model", locale, tz, lang)?;
+                apply_layout(&mut m, *k);
+                Some(m)
+            }
+            Some(BareInit::Fixture(name)) => {
+                let b = std::fs::read(format!("{}/{}", fixtures_dir(), name)).map_err(|e| format!("harness: fixture {name}: {e}"))?;
+                let wb = ironcalc::import::load_from_xlsx_bytes(&b, "model", "en", "UTC").map_err(|e| format!("harness: fixture {name}: {e}"))?;
+                let mut m = Model::from_workbook(wb, "en")?;
+                m.evaluate();
+                Some(m)
+            }
+        };
+        let bare_initial = bare.as_ref().map(|m| m.to_bytes()).unwrap_or_default();
         let mut followers = Vec::new();
         for i in 0..init.followers {
             let node = Node::from_bytes(&bytes, lang, 100 + i as u32)?;
@@ -200,6 +234,9 @@ impl World {
             stats: FaultCounters::default(),
             undo_kinds: vec![],
             redo_kinds: vec![],
+            bare,
+            bare_initial,
+            primary_initial: bytes,
         })
     }
 
@@ -233,6 +270,34 @@ impl World {
             Err(e) => {
                 self.stats.panics += 1;
                 StepRes { aux: None, result: Err("panic".into()), panic: Some(panic_message(e)), restarted: false }
+            }
+        }
+    }
+
+    fn bare_op(&mut self, op: &crate::ev::BareOp) -> Result<(), String> {
+        use crate::ev::BareOp::*;
+        let lang = self.primary.lang;
+        let m = match self.bare.as_mut() {
+            Some(m) => m,
+            None => return Err("harness: no bare model in this world".to_string()),
+        };
+        match op {
+            ColWidth { sheet, col, w } => m.set_column_width(*sheet, *col, *w),
+            ColHidden { sheet, col, hidden } => m.set_column_hidden(*sheet, *col, *hidden),
+            ColStyle { sheet, col, style } => m.set_column_style(*sheet, *col, style),
+            ColStyleDelete { sheet, col } => m.delete_column_style(*sheet, *col),
+            RowHeight { sheet, row, h } => m.set_row_height(*sheet, *row, *h),
+            RowHidden { sheet, row, hidden } => m.set_row_hidden(*sheet, *row, *hidden),
+            RowStyle { sheet, row, style } => m.set_row_style(*sheet, *row, style),
+            RowStyleDelete { sheet, row } => m.delete_row_style(*sheet, *row),
+            CellStyle { sheet, row, col, style } => m.set_cell_style(*sheet, *row, *col, style),
+            Restart => {
+                let b = m.to_bytes();
+                let mut n = Model::from_bytes(&b, lang)?;
+                n.evaluate();
+                self.bare = Some(n);
+                self.stats.clean_restarts += 1;
+                Ok(())
             }
         }
     }
@@ -342,6 +407,7 @@ impl World {
                 self.store = Some(Saved { bytes: self.primary.um.to_bytes(), snap: snapshot(&self.primary) });
                 Ok(())
             }
+            Ev::Bare { op } => self.bare_op(op),
             Ev::Restart { dirty } => {
                 let bytes = if *dirty {
                     match &self.store {
